@@ -24,7 +24,7 @@ def obligations(tier):
                                   "verif_mtx_find": 4},
                        timeout=600, mem_gb=8, bounds={"timers": nt, "loop_iterations": it, "tick_hz": hz, "duration": "all 2^64", "clock": "< 2^62, non-decreasing"},
                        units=UNITS, stubs=STUBS, kf=["C09-expiry-wrap", "C09-timeout-int32"]))
-    for k, k2 in ([(2, 1), (3, 1)] if tier == "quick" else [(2, 1), (3, 1), (3, 2), (4, 1), (5, 1)]):
+    for k, k2 in ([] if tier == "quick" else [(2, 1), (3, 1)]):
         kt = k + k2
         depth = {1: 0, 2: 1, 3: 1, 4: 2, 5: 2, 6: 2, 7: 2}[kt]
         obs.append(Obl("heap-K%d+%d" % (k, k2), "c09_heap.c", defs=["K=%d" % k, "K2=%d" % k2, "VERIF_WITNESS_ALL"],
@@ -32,8 +32,16 @@ def obligations(tier):
                        unwindset={"verif_realloc": 9, "timerlist_expire.0": kt + 1, "timerlist_heap_sift_down.0": depth + 2,
                                   "timerlist_heap_sift_up.0": depth + 1, "timerlist_debug_is_valid_heap.0": kt + 1,
                                   "verif_mtx_find": 3},
-                       timeout=900, mem_gb=8,
+                       timeout=3000, mem_gb=12,
                        bounds={"timers_first_batch": k, "timers_second_batch": k2, "deleted": "any subset of first batch",
                                "durations": "all 2^64", "clock": "< 2^62, non-decreasing", "expire_passes": 2},
                        units=["include/tlist.h"], stubs=STUBS))
+    for hn in ([7] if tier == "quick" else [3, 7, 15]):
+        depth = {3: 2, 7: 3, 15: 4}[hn]
+        obs.append(Obl("heapstep-N%d" % hn, "c09_heapstep.c", defs=["HEAPN=%d" % hn, "VERIF_WITNESS_ALL"],
+                       unwind=hn + 3,
+                       unwindset={"timerlist_heap_sift_down.0": depth + 1, "timerlist_heap_sift_up.0": depth + 1, "verif_mtx_find": 3},
+                       timeout=900, mem_gb=8,
+                       bounds={"heap_entries": "0..%d" % hn, "expiries": "all 2^64", "ops": "one del (any position) or one add", "shape": "inductive step"},
+                       units=["include/tlist.h"], stubs=["pthread_seq.h"]))
     return obs
